@@ -64,7 +64,8 @@ func (m *Mutex) Unlock() {
 type RWMutex struct {
 	writer  bool
 	readers int
-	so      vs.SyncObj
+	so      vs.SyncObj // published by writers (Unlock); acquired by readers and writers
+	rso     vs.SyncObj // published by readers (RUnlock); acquired by writers only
 	real    sync.RWMutex
 }
 
@@ -76,6 +77,7 @@ func (m *RWMutex) Lock() {
 	vs.WaitUntil("rwmutex.Lock", func() bool { return !m.writer && m.readers == 0 })
 	m.writer = true
 	m.so.Acquire()
+	m.rso.Acquire()
 }
 
 func (m *RWMutex) Unlock() {
@@ -116,10 +118,9 @@ func (m *RWMutex) RUnlock() {
 	if m.readers == 0 {
 		panic("sync: RUnlock of unlocked RWMutex")
 	}
-	// readers do not publish to each other, only to the next writer; joining into the object is
-	// an over-approximation of ordering that can only hide (never invent) a race between readers,
-	// which cannot race anyway.
-	m.so.Release()
+	// readers publish to the next writer only, never to each other: two "readers" that actually
+	// write are therefore reported as a race
+	m.rso.Release()
 	m.readers--
 }
 
